@@ -196,6 +196,10 @@ func (m *MRTMessage) Serialize() ([]byte, error) {
 		return nil, err
 	}
 	m.Header.Len = uint32(len(buf))
+	if m.Header.Type.HasExtendedTimestamp() {
+		// RFC 6396 section 3: the length field counts the microsecond timestamp
+		m.Header.Len += 4
+	}
 	bbuf, err := m.Header.Serialize()
 	if err != nil {
 		return nil, err
@@ -1008,9 +1012,19 @@ func SplitMrt(data []byte, atEOF bool) (advance int, token []byte, err error) {
 	return int(totlen), data[:totlen], nil
 }
 
+// ParseBody parses the message that follows the header h (for an
+// extended-timestamp type: that follows the 16 octets of the header).
 func ParseBody(data []byte, h *MRTHeader) (*MRTMessage, error) {
-	if len(data) < int(h.Len) {
-		return nil, fmt.Errorf("not all MRT message bytes available. expected: %d, actual: %d", int(h.Len), len(data))
+	bodyLen := uint64(h.Len)
+	if h.Type.HasExtendedTimestamp() {
+		// RFC 6396 section 3: the length field counts the microsecond timestamp
+		if bodyLen < 4 {
+			return nil, fmt.Errorf("invalid MRT message length %d for an extended timestamp type", h.Len)
+		}
+		bodyLen -= 4
+	}
+	if uint64(len(data)) < bodyLen {
+		return nil, fmt.Errorf("not all MRT message bytes available. expected: %d, actual: %d", bodyLen, len(data))
 	}
 	var err error
 	var body Body
@@ -1055,7 +1069,7 @@ func ParseBody(data []byte, h *MRTHeader) (*MRTMessage, error) {
 		if body == nil {
 			body, err = parseRib(data, rf, isAddPath)
 		}
-	case BGP4MP:
+	case BGP4MP, BGP4MP_ET:
 		subType := MRTSubTypeBGP4MP(h.SubType)
 		isAS4 := true
 		switch subType {
